@@ -2,14 +2,14 @@
 # tools/seedconfirm.sh <seed id>...: run the repository's test suite with the seeded change applied in a scratch worktree
 for sid in "$@"; do
   D=/verif/seeded/$sid
-  [ -f "$D/tests_full.txt" ] && continue
+  [ -s "$D/tests_full.txt" ] && continue
   W=/tmp/wt_confirm_$sid
   git -C /repo worktree add -q --detach "$W" HEAD || continue
   if git -C "$W" apply "$D/patch.diff"; then
-    (cd "$W" && nice -n 10 timeout 3000 env -u COTENGRA_VERIF /venv/bin/python -m pytest -q -p no:cacheprovider --timeout=900 -x -q --deselect "tests/test_optimizers.py::test_hyper[False-chocolate-chocolate]" --deselect "tests/test_optimizers.py::test_hyper[True-chocolate-chocolate]" 2>&1 | tail -3) > "$D/tests_full.txt" 2>&1
+    (cd "$W" && nice -n 10 timeout 3000 env -u COTENGRA_VERIF /venv/bin/python -m pytest -q -p no:cacheprovider --timeout=900 --deselect "tests/test_optimizers.py::test_hyper[False-chocolate-chocolate]" --deselect "tests/test_optimizers.py::test_hyper[True-chocolate-chocolate]" 2>&1 | grep -E "passed|failed|error" | tail -1) > "$D/tests_full.txt" 2>&1
   else
     echo "patch does not apply" > "$D/tests_full.txt"
   fi
   git -C /repo worktree remove --force "$W"
-  echo "$sid: $(tail -1 $D/tests_full.txt)"
+  echo "$sid: $(cat $D/tests_full.txt)"
 done
